@@ -169,7 +169,11 @@ def run(ctx):
             if ok and f"sources[{idx}].name" not in nm:
                 # the name looked up in a list computed once: names = [get_source_name(source, i) for i, source in enumerate(sources)]
                 from ..names import canon_consts as _cc
-                nm = norm(_cc(ast.Expression(body=fx.expand(a.target))).body)
+                tn = ast.parse(nm, mode="eval").body
+                el = None
+                if isinstance(tn, ast.Subscript) and isinstance(tn.value, ast.Name) and norm(tn.slice) == idx:
+                    el = q.index_comprehension(fx.localdefs.get(tn.value.id), idx)
+                nm = norm(el) if el is not None else norm(_cc(ast.Expression(body=fx.expand(a.target))).body)
             ok = ok and (f"sources[{idx}].name" in nm or f"get_source_name(sources[{idx}], {idx})" in nm)
             ctx.ob("V3", EV, "EventManager", f"{reg} field of source i <- source i .{attr}", ok,
                    "" if ok else f"{a.t} <= {a.v}", a.line)
